@@ -52,20 +52,25 @@ REQUIRED_COUNTERS = ['obs:roundtrip-get-after-set', 'obs:roundtrip-input-vector'
                      'cell:units=asked-scale', 'cell:units=asked-offset', 'cell:units=native',
                      'cell:chain=indexed-name', 'cell:model=cyclic']
 ASSUMPTIONS = ['NumPy indexing and the harness unit table (omv/ref/flatmodel.py UNITS/conv) are the reference',
-               'only legal calls are generated: units of the variable\'s own family, indices valid for NumPy on the '
-               'name\'s shape with a non-empty result, values of exactly the addressed shape or scalars; a set '
-               'through a name whose index chain aliases one source entry several times is generated only when all '
-               'aliases are addressed with equal values (otherwise the property is unsatisfiable)',
+               'only legal calls are generated: units= only for names that have units, taken from the same unit '
+               'family; indices valid for NumPy on the name\'s shape with a non-empty result; values of exactly the '
+               'addressed shape or scalars (never a size-1 array for a scalar position); a set through a name whose '
+               'index chain aliases one source entry several times is generated only when all aliases are addressed '
+               'with equal values (otherwise the property is unsatisfiable)',
                'set_val through an input that has units but is connected to a unitless source is not generated '
                '(OpenMDAO documents a TypeError for it)',
+               'call forms that hit the recorded findings (scalar value over a multi-entry indexed target, scalar '
+               'into a scalar position of an absolute input, indices on an input with an int src_indices, sets '
+               'through 2-link chains with repeated entries or a flat link on a non-contiguous view) are generated in '
+               '20% of the histories only, so the other histories are judged in full',
+               'a raising set_val is reported once; whatever state it leaves behind is adopted by the shadow store',
                'component outputs after run_model are compared with R at 1e-8 (solver tolerance), everything else '
-               'at 1e-12 x magnitude of the operands incl. unit offsets; cases where a solver reports '
-               'non-convergence are not judged']
+               'at 1e-12 x magnitude of the operands incl. unit offsets (round-off of an affine conversion is a few '
+               'ulp of the largest operand); cases where a solver reports non-convergence are not judged']
 SHARD_TIMEOUT = {'quick': 900, 'thorough': 3600}
 
 OPTS = dict(p_index=0.7, p_units=0.65, p_chain2=0.35, p_param=0.6, p_matfree=0.0, p_sparse=0.2, p_implicit=0.25,
             max_comps=4, p_promote=0.6)
-PHASES = ['pre-final-setup', 'post-final-setup', 'post-run']
 RT = 1e-12       # round-trip / alias tolerance, times the magnitude of the operands
 RUN_TOL = 1e-8   # component outputs after run_model vs R
 
@@ -374,6 +379,7 @@ class Replay:
         self.u_init, self.u_run0 = u_init, u_run0
         self.unjudgeable = None
         self.raised = False
+        self.has_solver = any(g.get('nl', {}).get('type') not in (None, 'runonce') for g in _groups(spec['tree']))
         self.canon = {}
         for n in names:
             if n['kind'] in ('ivc-abs', 'state-abs', 'param-prom'):
@@ -459,9 +465,13 @@ class Replay:
                 continue
             self.acc.count('obs:after-run-ivc-persist')
             if not np.array_equal(got, self.shadow.store[nme]):
-                ok, why = _close(got, self.shadow.store[nme], 0.0)
-                self._flag('ivc-changed-by-run:%s' % self.canon[nme]['kind'],
-                           'independent variable %s changed over run_model: %s' % (nme, why))
+                # bitwise in run-once models; under Newton/Broyden/Krylov stacks the linear solve may put
+                # round-off level updates on an independent variable (its residual is identically zero)
+                tol = RUN_TOL * max(1.0, float(np.max(np.abs(got), initial=0.0))) if self.has_solver else 0.0
+                ok, why = _close(got, self.shadow.store[nme], tol)
+                if not ok:
+                    self._flag('ivc-changed-by-run:%s' % self.canon[nme]['kind'],
+                               'independent variable %s changed over run_model: %s' % (nme, why))
                 self.shadow.store[nme] = got.copy()
         return True
 
@@ -742,13 +752,7 @@ def run_case(case, acc):
     reps = []
     for placement in (0, 1, 2):
         r = Replay(spec, fm, names, hist, placement, u_init, u_run0, acc)
-        try:
-            r.run()
-        except Exception as e:     # harness problem inside one placement: report as such, never as a verdict
-            if os.environ.get('OMV_DEBUG'):
-                import traceback
-                traceback.print_exc()
-            raise
+        r.run()
         reps.append(r)
     bad = []
     for r in reps:
@@ -771,7 +775,10 @@ def run_case(case, acc):
                     if sa and (other.placement == 2 or stream == 'after-run'):
                         continue      # component outputs legitimately differ once the model has been run
                     acc.count('obs:cross-placement-compare')
-                    good, why = _close(vo, va, 2 * RT * max(ma, mo))
+                    # (a placement that ran the model first may carry round-off level updates that a solver stack
+                    #  put on independent variables)
+                    tol = RUN_TOL if (has_solver and other.placement == 2) else 2 * RT
+                    good, why = _close(vo, va, tol * max(ma, mo))
                     if not good:
                         bad.append(('placement-dependent-value:%s' % ta,
                                     '%s observation %d differs between placement 0 and %d: %s vs %s (%s)' %
